@@ -110,6 +110,9 @@ class ObjFlow:
         return out
 
     def _from_value(self, v, at=None):
+        if v[0] == "call" and v[1].endswith("Clone>::clone") and len(v[2]) == 1 and v[2][0][0] == "local":
+            # `let mut m = template.clone();` -- a copy of an object built in place continues from its state
+            v = v[2][0]
         if v[0] == "local" and at is not None and self.depth < 3 and v != self.D:
             # `let mut m = <object built in place in another local>` (a constructor helper spliced into the body,
             # `let m = tmp;`): the object continues the life of the one it was moved from
@@ -142,7 +145,7 @@ class ObjFlow:
         fc = t["func"]
         d = t["dest"]
         if self._is_obj_place(d) and not [p for p in d["p"] if p != "*"]:
-            return self._from_value(a.expr_call(t, at))
+            return self._from_value(a.expr_call(t, at), at)
         if not ("const" in fc and "fn" in fc["const"]):
             return cur
         sp = strip_generics(fc["const"]["fn"]["path"])
